@@ -159,7 +159,7 @@ def run(report, replay=None):
     if replay and 'seed' in replay.get('replay', {}) and replay['replay'].get('stage') != 'stdout':
         return lang_props.replay_record(report, replay)
     n = 3000 if report.tier == 'thorough' else 380
-    fixed = [r for r in corpus.records() if r['profile'].split(':')[1] in ('output', 'functions')]
+    fixed = [r for r in corpus.records() if r['profile'].split(':')[1] in ('output', 'output-chains', 'functions')]
     records, verdicts = lang_props.run_profiles(report, [('print', n, 25)], fixed)
     batch, index = [], {}
     SIG = 'stdout:no-separator'
